@@ -1,6 +1,12 @@
 (* C13 — lemmas about Model/C13_Adder.v *)
 From V Require Import Base.Common Base.CommonLemmas Model.C13_Adder Model.C13_Check Model.C13_Spec.
+From Coq Require Import MSets.MSetPositive.
 Open Scope N_scope.
+
+Lemma key_inj a b : key a = key b -> a = b.
+Proof.
+  unfold key. intros H. apply N.succ_inj. rewrite <- !N.succ_pos_spec. now rewrite H.
+Qed.
 
 (* ------------------------------------------------------------------ *)
 (* BlockAdder.Add                                                       *)
@@ -424,7 +430,7 @@ Proof.
 Qed.
 
 Record InvBase (pA pD : list block) (xs : list shrec) (st : sst) : Prop := {
-  i_added : forall c, In c (added st) <-> In c (cids_of pA);
+  i_added : forall c, PositiveSet.In (key c) (added st) <-> In c (cids_of pA);
   i_part : concat (map r_links xs) ++ cur_links st = dedup (cids_of pD);
   i_shards : shards st = map (shard_cid e) xs;
   i_prev : prev st = lastp None xs;
@@ -662,7 +668,7 @@ Qed.
 Definition Inv (pre : list block) (xs : list shrec) (st : sst) : Prop := InvBase pre pre xs st /\ CurOk st /\ CurLim st.
 
 Lemma InvBase_added pA pA' pD xs st a' :
-  InvBase pA pD xs st -> (forall c, In c a' <-> In c (cids_of pA')) ->
+  InvBase pA pD xs st -> (forall c, PositiveSet.In (key c) a' <-> In c (cids_of pA')) ->
   InvBase pA' pD xs (mksst a' (cur st) (prev st) (shards st) (sio st)).
 Proof.
   intros I Ha. constructor; try apply I. exact Ha.
@@ -673,18 +679,22 @@ Lemma shard_add_spec pre xs st b r st' :
   WfIo (sio st') /\ r <> Some EFuel /\ (r = None -> exists xs', Inv (pre ++ [b]) xs' st').
 Proof.
   intros (I & CO & CL) Hb H. unfold shard_add in H.
-  destruct (memN (bcid b) (added st)) eqn:Hm.
+  destruct (PositiveSet.mem (key (bcid b)) (added st)) eqn:Hm.
   - inversion H; subst. split; [apply I|]. split; [discriminate|]. intros _. exists xs.
-    apply memN_in in Hm. apply (i_added _ _ _ _ I) in Hm.
+    apply PositiveSet.mem_spec in Hm. apply (i_added _ _ _ _ I) in Hm.
     split; [|split; assumption]. destruct I. constructor; try assumption.
     + intros c. rewrite i_added0, cids_of_app, in_app_iff. simpl. split; [tauto|]. intros [?|[<-|[]]]; assumption.
     + now rewrite dedup_snoc_old.
     + now rewrite dedup_snoc_old.
-  - apply memN_false in Hm. rewrite (i_added _ _ _ _ I) in Hm.
-    set (st0 := mksst (bcid b :: added st) (cur st) (prev st) (shards st) (sio st)) in *.
+  - assert (Hm' : ~ In (bcid b) (cids_of pre)).
+    { intros Hin. apply (i_added _ _ _ _ I) in Hin. apply PositiveSet.mem_spec in Hin. congruence. }
+    clear Hm. rename Hm' into Hm.
+    set (st0 := mksst (PositiveSet.add (key (bcid b)) (added st)) (cur st) (prev st) (shards st) (sio st)) in *.
     assert (I0 : InvBase (pre ++ [b]) pre xs st0).
     { apply (InvBase_added _ _ _ _ _ _ I). intros c. rewrite cids_of_app, in_app_iff. simpl.
-      rewrite <- (i_added _ _ _ _ I). tauto. }
+      rewrite PositiveSet.add_spec, <- (i_added _ _ _ _ I). split.
+      - intros [Hk|Hc]; [right; left; symmetry; now apply key_inj|now left].
+      - intros [Hc|[<-|[]]]; [now right|now left]. }
     destruct (ingest_spec 2 _ _ _ _ _ _ I0 CO CL Hb Hm (fun _ => ltac:(lia)) (or_introl (le_n 2)) H) as (W & Hf & Hok).
     split; [assumption|]. split; [assumption|]. intros Hr. destruct (Hok Hr) as (xs' & ?). exists xs'. assumption.
 Qed.
@@ -711,7 +721,7 @@ Qed.
 Lemma Inv0 : Inv [] [] sst0.
 Proof.
   split; [|split; exact I]. constructor.
-  - intros c. simpl. tauto.
+  - intros c. simpl. split; [intros H; now apply PositiveSet.empty_spec in H|intros []].
   - reflexivity.
   - reflexivity.
   - reflexivity.
